@@ -70,7 +70,7 @@ def interpScalar (t : CqlTy) (g : GoVal) : Option CqlVal :=
   | .ip b => (match t with
       | .inet => (match ipTo4 b with
           | some v4 => some (.bytes v4)
-          | none => if b.length = 16 then some (.bytes b) else none)
+          | none => if b.length = 16 then some (.bytes b) else if b = [] then some .null else none)   -- nil net.IP: null
       | _ => none)
   | _ => none
 
@@ -150,18 +150,11 @@ def excludedScalar (t : CqlTy) (g : GoVal) : Bool :=
   | .int k named v =>
     (match intColOf t with
      | some col => !k.signed && decide (v ≥ (2:Int)^(8*col.bytes-1))          -- D9: unsigned wraps into the sign bit
-     | none => (match t with
-        | .date => k == .int64 && !named &&
-            !(ValueSpec.fitsU 4 (v / 86400000 + 2147483648))                  -- KF-C12-5: out-of-range day wraps
-        | _ => false))
+     | none => false)                           -- (KF-C12-5 repaired: an out-of-range day is an error)
   | .time sec nsec =>
     timeIsZero sec nsec                                                        -- zero time ↦ empty value (gocql convention)
     || !(ValueSpec.fitsS 8 (sec * 1000)) || !(ValueSpec.fitsS 8 (exactMillis sec nsec))   -- int64 overflow of Unix()*1e3 + ms
-    || (match t with
-        | .date => !(ValueSpec.fitsU 4 (sec / 86400 + 2147483648))             -- KF-C12-5
-        | _ => false)
   | .f32 named x => named && decide (quiet32 x ≠ x)                            -- Go float32→float64→float32 quiets a signalling NaN
-  | .ip b => b.length ≠ 4 && b.length ≠ 16                                     -- net.IP of another length ↦ null
   | .str false s => (match t with | .date => true | .duration => true | .inet => true | _ => false)
                     && (s.length ≥ 0)                                          -- standard-library parsers: not modelled
   | _ => false
@@ -173,7 +166,7 @@ def marshalsNil (g : GoVal) : Bool :=
   | .bytes _ isNil _ => isNil
   | .slice isNil _ => isNil
   | .map isNil _ => isNil
-  | .ip b => b.length ≠ 4 && b.length ≠ 16
+  | .ip b => b.isEmpty                      -- (repair of KF-C12-10: other lengths than 0 / 4 / 16 are errors)
   | _ => false
 
 def derefAll : GoVal → GoVal
